@@ -29,7 +29,7 @@ T_Result ==
                  /\ (v = "S" => E.outcome = "success")                    \* a valid acceptance succeeds
                  /\ (v = "F" => E.outcome = "error")                      \* every other reply sequence is an error
               /\ (E.outcome = "success" /\ flow = "enc") => E.capsok      \* the capability set the server returned
-              /\ (E.outcome = "success" /\ HasPacksize(script) /\ Verdict(flow, script) = "S") => E.ps = E.announced
+              /\ (E.outcome = "success" /\ HasPacksize(flow, script) /\ Verdict(flow, script) = "S") => E.ps = E.announced
     /\ outcome' = E.outcome
     /\ UNCHANGED <<flow, script, nrem, ciphers>>
 
